@@ -8,7 +8,7 @@ import numpy as np
 
 import core
 
-RULE = ("exhaustive: every trajectory over {0,1,2,NaN} of length <= L (quick 5, thorough 7) x tau in {1,2,3,7} x both window "
+RULE = ("exhaustive: every trajectory over {0,1,2,NaN} of length <= L (quick 5, thorough 6) x tau in {1,2,3,7} x both window "
         "modes, then random long trajectories (<= 2000 frames, <= 30 cells, NaN runs, unvisited cells, tau up to 50); "
         "plus sequences of 2-6 requests on ONE MSM object (single lags and get_all_tau arrays with repeated / fractional lags); "
         "a case is non-trivial when at least one window is counted; distinct by (trajectory, n, tau, mode)")
@@ -18,7 +18,7 @@ PARALLEL = 12   # thorough tier: fork pool for the implementation side
 
 def cases(ctx):
     alphabet = [0, 1, 2, None]
-    Lmax = 5 if ctx.quick else 7
+    Lmax = 5 if ctx.quick else 6
     for L in range(0, Lmax + 1):
         for x in itertools.product(alphabet, repeat=L):
             for tau in (1, 2, 3, 7):
